@@ -227,11 +227,16 @@ def basic_glue(c, e1names=None, with_ep=True, with_mt=True):
                                    label, via, fn, path, "vsupport::sylvia", rty, "vsupport::sylvia", rty, fn, args))
                 for (fn, nargs) in e1names.get((label, "querier"), []):
                     args = ", ".join("vsupport::arg(&a[%d])" % j for j in range(nargs))
-                    rq.append('("%s", "%s", "%s") => { use %s::Querier; let ctx2 = c.ctx.clone(); vsupport::with_recording_querier::<%s, _, _>('
-                              'move |m| { let cx = vsupport::Cx::<%s>::new(&ctx2); match cw_std::from_json::<%s>(m) { Err(e) => Err(format!("target rejects query body: {}", e)), '
-                              'Ok(q) => entry_points::query(cx.deps.as_ref(), cx.env.clone(), q).map_err(|e| e.to_string()) } }, '
-                              '|qw| { let r = if borrowed { %s::types::Remote::<%s>::borrowed(&addr) } else { %s::types::Remote::<%s>::new(addr.clone()) }; let bq = r.querier(qw); vsupport::jres(bq.%s(%s)) }) },' % (
-                                  label, via, fn, path, cqry, cqry, wrappers["query"], "vsupport::sylvia", rty, "vsupport::sylvia", rty, fn, args))
+                    # the caller's chain may use another custom query type than the target (smart queries do not depend on it):
+                    # extra.foreign selects a querier typed with a custom query type the target does not use
+                    other_q = "MyQuery" if cqry == "Empty" else "Empty"
+                    inner = ('{ let ctx2 = c.ctx.clone(); vsupport::with_recording_querier::<%%s, _, _>('
+                             'move |m| { let cx = vsupport::Cx::<%s>::new(&ctx2); match cw_std::from_json::<%s>(m) { Err(e) => Err(format!("target rejects query body: {}", e)), '
+                             'Ok(q) => entry_points::query(cx.deps.as_ref(), cx.env.clone(), q).map_err(|e| e.to_string()) } }, '
+                             '|qw| { let r = if borrowed { %s::types::Remote::<%s>::borrowed(&addr) } else { %s::types::Remote::<%s>::new(addr.clone()) }; let bq = r.querier(qw); vsupport::jres(bq.%s(%s)) }) }' % (
+                                 cqry, wrappers["query"], "vsupport::sylvia", rty, "vsupport::sylvia", rty, fn, args))
+                    rq.append('("%s", "%s", "%s") => { use %s::Querier; if c.extra["foreign"].as_bool().unwrap_or(false) %s else %s },' % (
+                        label, via, fn, path, inner % other_q, inner % cqry))
         pre = ('let a: Vec<Value> = vsupport::args_of(&c.input); let addr = Addr::unchecked(c.ctx["addr"].as_str().unwrap_or("target")); '
                'let borrowed = c.extra["borrowed"].as_bool().unwrap_or(false); let fseq = vsupport::funds_seq(&c.ctx); '
                'match (c.part.as_str(), c.extra["via"].as_str().unwrap_or(""), c.extra["fn"].as_str().unwrap_or(""))')
